@@ -3,6 +3,13 @@
 import json, sys
 
 CLAIMED = {
+ "C04": dict(
+   category="model_checking",
+   text="Explicit-state BFS to closure from the fully rolled-out state of an ObjectSet with 2-3 phases (every local/delegated mask quick for 2 phases, 4 masks for 3; thorough all 8 masks x 4 finalizer-hold sets): the user deletes or archives it; then the real ObjectSet and ObjectSetPhase controllers run in every order with a finalizer holder releasing foreign finalizers on managed objects, the garbage collector, a third party making another ObjectSet the controller of an object, and an operator crash before request i of a teardown pass for every i (1 crash quick, 2 thorough; the dynamic cache is lost). Monitors: every effective delete of an object (or phase object) of phase k requires that no object of a later phase that the ObjectSet still controls (transitively through ObjectSetPhases) is present at that instant; every write that drops the package-operator.run/cached finalizer or reports Archived=True requires that nothing listed is still controlled; state invariant: while something is controlled the finalizer is there and Archived is not True.",
+   design_ref="DESIGN.md §7 C04",
+   note="Trusted: kmodel finalizer/GC semantics; orphan deletion excluded (C05).",
+   technique="explicit-state model checking (BFS, canonical state hashing) with crash-point enumeration at every API call, trace monitors + state invariant",
+   engine="world"),
  "C03": dict(
    category="model_checking",
    text="Explicit-state BFS to closure (state hashing on canonical store + cache owner sets) over the real ObjectSet controller and the real same-cluster ObjectSetPhase controller interleaved, at pass granularity, with a workload controller that can set the status of any existing object to none / ready / not-ready / stale observedGeneration, and (one system) the user pausing/unpausing; 7 systems quick / 22 thorough = phase layouts of 2-3 phases with every local/delegated mask. On every request of every ObjectSet pass a monitor checks: a create/patch of an object (or of the ObjectSetPhase) of phase k happens only if, in what this pass read before that request, every object of every earlier phase was present and passes an independent reference prober (delegated: the phase object read was Available for its current generation); a persisted Available=False/ProbeFailure names the first failing phase in spec order.",
